@@ -50,8 +50,19 @@ def run_check(prop, d, tier="quick", seed=0, timeout=1800):
     lines = p.stdout.splitlines()
     viol = [l for l in lines if l.startswith("VIOLATION")]
     inc = [l for l in lines if l.startswith("INCONCLUSIVE")]
-    return {"prop": prop, "rc": p.returncode, "violations": len(viol), "first": (viol or inc or [""])[0][:260],
-            "wall": round(time.time() - t0, 1), "stderr": p.stderr[-300:]}
+    out = {"prop": prop, "rc": p.returncode, "violations": len(viol), "first": (viol or inc or [""])[0][:260],
+           "wall": round(time.time() - t0, 1), "stderr": p.stderr[-300:], "replay": None}
+    if viol and os.environ.get("RV_SELFTEST_REPLAY", "1") == "1":
+        # the replay file of the first violation must reproduce it on the broken tree
+        path = viol[0].split("replay=")[1].split()[0]
+        try:
+            rp = subprocess.run([os.path.join(VERIF, "check"), prop, "--replay", path], capture_output=True, text=True,
+                                env=env, timeout=600)
+            out["replay"] = "reproduced" if rp.returncode == 1 and "VIOLATION" in rp.stdout else \
+                "NOT reproduced (rc=%s %s)" % (rp.returncode, (rp.stdout + rp.stderr)[-160:].replace("\n", " "))
+        except Exception as e:
+            out["replay"] = "replay failed: %r" % e
+    return out
 
 
 def one(name, patch_bytes, props, reverse=False, tier="quick", expect="violation"):
@@ -94,7 +105,7 @@ def main():
                 r = one(row["name"], pb, row["props"], tier=a.tier)
             results.append(r)
             print("%-48s caught_by=%s %s" % (r["mutant"], r["caught_by"] or "NONE",
-                                              "; ".join("%s rc=%s %ss" % (x["prop"], x["rc"], x["wall"]) for x in r["results"])), flush=True)
+                                              "; ".join("%s rc=%s %ss replay=%s" % (x["prop"], x["rc"], x["wall"], x.get("replay")) for x in r["results"])), flush=True)
             for x in r["results"]:
                 if not x["caught"]:
                     print("     MISSED by %s: %s %s" % (x["prop"], x["first"], x["stderr"][-200:].replace("\n", " ")))
